@@ -107,7 +107,7 @@ func tail(s []string, n int) []string {
 
 func body(w *run.Worker) {
 	ctx := context.Background()
-	w.Cases("workload", w.N(56, 1120), func(c *run.Case) {
+	w.Cases("workload", w.N(56, 560), func(c *run.Case) {
 		r := c.Rng
 		cfg := genCfg(r)
 		s, err := asm.Build(cfg, asm.NewMedia(cfg))
@@ -505,6 +505,7 @@ func (x *wl) restartAndCheck(what string, bi, ii []byte, di map[string][]byte, c
 		x.c.Violation("persistentStateStore:restart-failed", "%s: the store cannot be restarted on the crash image: %v", what, err)
 		return 0
 	}
+	defer s2.Close()
 	var survivors []digest.Digest
 	for _, d := range x.m.order {
 		present, perr := asm.Present(x.ctx, s2.BA, d)
